@@ -298,8 +298,15 @@ pub fn elf_lkm(l: &Layout, debug_section: bool) -> Vec<u8> {
     sh.push(shdr(n_text, 1, 0x6, 0, text_off, 0x400, 16)); // ALLOC|EXEC
     sh.push(shdr(n_data, 1, 0x3, 0, data_off, data.len() as u64, 0x400)); // WRITE|ALLOC
     sh.push(shdr(n_bss, 8, 0x3, 0, str_off, l.bss_len, 16)); // NOBITS
-    sh.push(shdr(n_modinfo, 1, 0x2, 0, modinfo_off, modinfo.len() as u64, 1));
-    sh.push(shdr(n_this, 1, 0x3, 0, this_off, 0x40, 64));
+    // Both orders of the two kernel-module marker sections are legal; the variant with a debug section lists
+    // `.gnu.linkonce.this_module` first (kbuild usually emits `.modinfo` first).
+    if debug_section {
+        sh.push(shdr(n_this, 1, 0x3, 0, this_off, 0x40, 64));
+        sh.push(shdr(n_modinfo, 1, 0x2, 0, modinfo_off, modinfo.len() as u64, 1));
+    } else {
+        sh.push(shdr(n_modinfo, 1, 0x2, 0, modinfo_off, modinfo.len() as u64, 1));
+        sh.push(shdr(n_this, 1, 0x3, 0, this_off, 0x40, 64));
+    }
     if debug_section {
         sh.push(shdr(n_dbg, 1, 0, 0, dbg_off, 8, 1));
     }
@@ -1609,12 +1616,36 @@ pub fn add_triggers(pb: &mut Pb, mask: u32, base: u64) -> u64 {
         s.begin_block(join);
         n += 1;
     }
+    let wrapper = base + 0x1000;
+    if on(18) {
+        // An allocation wrapper whose size is its own parameter, called once with a constant and once with a value the
+        // analysis cannot track, and an access that is out of bounds for the constant: the size of the heap object
+        // is the merge over all call sites (CWE119 parameter replacement iterates a hash set of call sites).
+        let target = json!({"id": format!("sub_{}", h8(wrapper)), "address": h8(wrapper)});
+        s.mov(reg("RDI", 8), cst(8, 8));
+        s.call(target.clone(), true, "vh_alloc_and_write");
+        call_extern(&mut s, pb, "rand");
+        s.mov(reg("RDI", 8), reg("RAX", 8));
+        s.call(target, true, "vh_alloc_and_write");
+        n += 1;
+    }
     pb.stats.triggers += n;
     s.epilogue_ret();
-    let end = (s.ia + 0x1f) & !0xf;
+    assert!(s.ia < wrapper, "trigger function grew into the wrapper");
+    let mut end = (s.ia + 0x1f) & !0xf;
     let tid = pb.tid(format!("sub_{}", h8(base)), h8(base));
     pb.entry_points.push(tid);
     s.finish(pb);
+    if on(18) {
+        let mut w = SubB::new("vh_alloc_and_write", wrapper);
+        call_extern(&mut w, pb, "malloc");
+        w.op(Some(uniq(0x3400, 8)), "INT_ADD", &[reg("RAX", 8), cst(16, 8)]);
+        w.store(uniq(0x3400, 8), cst(0, 8));
+        w.next_insn();
+        w.ret();
+        end = (w.ia + 0x1f) & !0xf;
+        w.finish(pb);
+    }
     end
 }
 
